@@ -50,10 +50,26 @@ def main(argv=None):
     except ModuleNotFoundError:
         print(f"no check for {prop}", file=sys.stderr)
         return 2
-    out = Outcome(prop, args.tier)
+    tier = args.tier
+    if args.replay:
+        # a replay re-runs the recorded exploration (same tier, same seed) and reports only the recorded signature
+        import json
+        try:
+            with open(args.replay) as f:
+                rec = json.load(f)
+        except Exception as e:   # noqa
+            print(f"MACHINERY-FAILURE: cannot read {args.replay}: {e}", file=sys.stderr)
+            return 2
+        os.environ["VERIF_SEED"] = str(rec.get("seed", 0))
+        tier = rec.get("tier", "quick")
+    out = Outcome(prop, tier)
     try:
         if args.replay:
-            mod.replay(args.replay, out)
+            out.only_signature = rec.get("signature")
+            if getattr(mod, "SPECIFIC_REPLAY", False):
+                mod.replay(args.replay, out)
+            else:
+                mod.run(tier, out)
         else:
             mod.run(args.tier, out)
     except MachineryError as e:
